@@ -1774,3 +1774,128 @@ Proof.
   - intros H. destruct (allocate_block a) as [[idx a']|] eqn:A; [|reflexivity].
     destruct (allocate_block_spec _ _ _ A) as (B & T & _). rewrite H in T by exact B. discriminate.
 Qed.
+
+(* ====================================================================== event entry points and the restore-window queue *)
+(* the component event an entry-point event amounts to, if any *)
+Definition ev_cop (e : ev) (obs : option block) : list cop :=
+  match e with
+  | ELifecycle SReleased acc sid k dl => if pba_access acc then [CRelease sid k dl] else []
+  | ELifecycle _ _ _ _ _ => []
+  | EProgrammed acc sid k dp => if pba_access acc then [CActivate sid k dp obs] else []
+  | ERestored acc sid k dp => if pba_access acc then [CActivate sid k dp obs] else []
+  | EBadPayload => []
+  end.
+Definition ev_keyed (f : N -> N) (e : ev) : bool :=
+  match e with ELifecycle SReleased _ sid k _ => k =? f sid | _ => true end.
+Definition eop_keyed (f : N -> N) (o : eop) : bool :=
+  match o with EvDeliver e _ => ev_keyed f e | EvDrain _ => true | EvDirect co => keyed f co end.
+
+Lemma crun_app v c s l1 l2 : crun v c s (l1 ++ l2) = crun v c (crun v c s l1) l2.
+Proof. unfold crun. apply fold_left_app. Qed.
+
+Lemma dispatch_cop v c s e obs : fst (dispatch v c s e obs) = crun v c s (ev_cop e obs).
+Proof.
+  destruct e as [st acc sid k dl|acc sid k dp|acc sid k dp|]; simpl; try reflexivity.
+  - destruct st; try reflexivity. destruct (pba_access acc); reflexivity.
+  - destruct (pba_access acc); reflexivity.
+  - destruct (pba_access acc); reflexivity.
+Qed.
+Lemma ev_cop_keyed f e obs : ev_keyed f e = true -> forallb (keyed f) (ev_cop e obs) = true.
+Proof.
+  destruct e as [st acc sid k dl|acc sid k dp|acc sid k dp|]; simpl; try reflexivity.
+  - destruct st; try reflexivity. destruct (pba_access acc); simpl; [intros ->|]; reflexivity.
+  - destruct (pba_access acc); reflexivity.
+  - destruct (pba_access acc); reflexivity.
+Qed.
+
+Lemma drain_all_crun v c f q : forall s obsl, forallb (ev_keyed f) q = true ->
+  exists cops, drain_all v c s q obsl = crun v c s cops /\ forallb (keyed f) cops = true.
+Proof.
+  induction q as [|e q IH]; intros s obsl K; simpl.
+  - exists []. split; reflexivity.
+  - simpl in K. apply andb_true_iff in K. destruct K as [K1 K2].
+    destruct (IH (fst (dispatch v c s e (hd None obsl))) (tl obsl) K2) as (l & E & KL).
+    exists (ev_cop e (hd None obsl) ++ l). split.
+    + rewrite E, dispatch_cop, crun_app. reflexivity.
+    + rewrite forallb_app, KL, (ev_cop_keyed f e _ K1). reflexivity.
+Qed.
+
+(* whatever arrives through the entry points, in the restore window or after it, the component performs a sequence of
+   the component events of [cstep]; a keyed event stream gives a keyed sequence *)
+Lemma erun_refines vq v c f ops : forall s, forallb (eop_keyed f) ops = true -> forallb (ev_keyed f) (e_queue s) = true ->
+  exists cops, e_comp (erun vq v c s ops) = crun v c (e_comp s) cops /\ forallb (keyed f) cops = true.
+Proof.
+  unfold erun. induction ops as [|o ops IH]; intros s K Q; simpl.
+  - exists []. split; reflexivity.
+  - simpl in K. apply andb_true_iff in K. destruct K as [K1 K2].
+    assert (STEP : exists l, e_comp (estep vq v c s o) = crun v c (e_comp s) l /\ forallb (keyed f) l = true /\
+                             forallb (ev_keyed f) (e_queue (estep vq v c s o)) = true).
+    { destruct o as [e obs|obsl|co]; cbn [estep].
+      - destruct (e_drained s).
+        + exists (ev_cop e obs). cbn [e_comp e_queue]. rewrite dispatch_cop. repeat split; auto.
+          apply ev_cop_keyed. exact K1.
+        + destruct ((queue_bound <=? length (e_queue s))%nat && negb (vq && is_release e)); cbn [e_comp e_queue];
+            exists []; repeat split; auto.
+          rewrite forallb_app, Q. simpl. simpl in K1. rewrite K1. reflexivity.
+      - destruct (drain_all_crun v c f (e_queue s) (e_comp s) obsl Q) as (l & E & KL).
+        exists l. cbn [e_comp e_queue]. repeat split; auto.
+      - exists [co]. cbn [e_comp e_queue]. simpl in K1. repeat split; auto. simpl. rewrite K1. reflexivity. }
+    destruct STEP as (l1 & E1 & KL1 & Q1).
+    destruct (IH (estep vq v c s o) K2 Q1) as (l2 & E2 & KL2).
+    exists (l1 ++ l2). split.
+    + rewrite E2, E1, crun_app. reflexivity.
+    + rewrite forallb_app, KL1, KL2. reflexivity.
+Qed.
+
+(* after the fix a release is never dropped: it is queued whatever the length of the queue *)
+Lemma release_never_dropped v c s e obs : is_release e = true -> e_drained s = false ->
+  let s' := estep true v c s (EvDeliver e obs) in
+  e_queue s' = e_queue s ++ [e] /\ e_dropped s' = e_dropped s.
+Proof.
+  intros R D. cbn [estep]. rewrite D, R. simpl. rewrite andb_false_r. split; reflexivity.
+Qed.
+
+(* end to end over the entry points: reverse exactness for every keyed event stream *)
+Lemma event_level_exact r p0 f ops ip port : setup repaired r = Some p0 -> forallb (eop_keyed f) ops = true ->
+  let s := e_comp (erun true repaired (effective r) (ecomp_init p0) ops) in
+  match rev_lookup (cp_rev s) ip port with
+  | Some m => In (m_blk m) (blocks_of (cp_pool s) (m_sub m)) /\ covers (m_blk m) ip port = true /\
+              forall k b, In b (blocks_of (cp_pool s) k) -> covers b ip port = true -> k = m_sub m /\ b = m_blk m
+  | None => forall k b, In b (blocks_of (cp_pool s) k) -> covers b ip port = true -> exists sid, In (sid, k, b) (cp_pend s)
+  end.
+Proof.
+  intros Hs K s. destruct (erun_refines true repaired (effective r) f ops (ecomp_init p0) K eq_refl) as (cops & E & KC).
+  subst s. rewrite E. cbn [ecomp_init e_comp]. exact (s_lookup_exact r p0 Hs f cops ip port KC).
+Qed.
+
+Lemma event_level_pool_props r p0 vq ops : setup repaired r = Some p0 ->
+  let c := effective r in
+  let s := e_comp (erun vq repaired c (ecomp_init p0) ops) in
+  (forall k1 k2 b1 b2, k1 <> k2 -> In b1 (blocks_of (cp_pool s) k1) -> In b2 (blocks_of (cp_pool s) k2) ->
+     b_ip b1 = b_ip b2 -> b_end b1 < b_start b2 \/ b_end b2 < b_start b1) /\
+  (forall k b, In b (blocks_of (cp_pool s) k) ->
+     In (b_ip b) (flat_map expand (r_outside r)) /\ ~ In (b_ip b) (r_excluded r) /\
+     c_pstart c <= b_start b /\ (b_start b - c_pstart c) mod c_bs c = 0 /\
+     b_end b = b_start b + c_bs c - 1 /\ b_end b <= c_pend c) /\
+  (forall k, N.of_nat (length (blocks_of (cp_pool s) k)) <= c_max c) /\
+  (c_paired c = true -> forall k b1 b2, In b1 (blocks_of (cp_pool s) k) -> In b2 (blocks_of (cp_pool s) k) -> b_ip b1 = b_ip b2).
+Proof.
+  intros Hs c s.
+  assert (K0 : forallb (eop_keyed (fun _ => 0)) [] = true) by reflexivity.
+  (* refinement without the keyed part: use the trivially keyed function on an erased stream is not available, so
+     repeat the induction for the pool projection only *)
+  assert (R : forall ops0 s0, exists cops, e_comp (erun vq repaired c s0 ops0) = crun repaired c (e_comp s0) cops).
+  { unfold erun. induction ops0 as [|o ops0 IH]; intros s0; simpl; [exists []; reflexivity|].
+    assert (STEP : exists l, e_comp (estep vq repaired c s0 o) = crun repaired c (e_comp s0) l).
+    { destruct o as [e obs|obsl|co]; cbn [estep].
+      - destruct (e_drained s0); [exists (ev_cop e obs); cbn [e_comp]; apply dispatch_cop|].
+        destruct ((queue_bound <=? length (e_queue s0))%nat && negb (vq && is_release e)); exists []; reflexivity.
+      - cbn [e_comp]. generalize (e_comp s0) obsl. induction (e_queue s0) as [|e q IHq]; intros s1 ol; simpl; [exists []; reflexivity|].
+        destruct (IHq (fst (dispatch repaired c s1 e (hd None ol))) (tl ol)) as (l & E).
+        exists (ev_cop e (hd None ol) ++ l). rewrite E, dispatch_cop, crun_app. reflexivity.
+      - exists [co]. reflexivity. }
+    destruct STEP as (l1 & E1). destruct (IH (estep vq repaired c s0 o)) as (l2 & E2).
+    exists (l1 ++ l2). rewrite E2, E1, crun_app. reflexivity. }
+  destruct (R ops (ecomp_init p0)) as (cops & E). subst s. rewrite E. cbn [ecomp_init e_comp].
+  exact (s_comp_pool_props r p0 Hs cops).
+Qed.
